@@ -748,6 +748,64 @@ def laws(rng, tier, ctx):
             bad = check_members(leaves(pos) + leaves(kw), leaves(res[0]) + leaves(res[1]), want, sx[5], None)
         if bad:
             yield Finding('violation', case, bad)
+    # presync with a column policy (the DEFAULT is columns='ij'): the decorated function is called once per column of the common
+    # column set, each time with that column of every multi-column frame (a frame lacking it: the default, NaN), Series as they
+    # are, all on the common index - "multi-column frames onto the matching common column set" for ANY decorated function
+    # (the function here only records what it receives)
+    for _ in range(n // 3):
+        days0 = rand_days(rng, 'overlap', [])
+        k = rng.choice([2, 2, 3])
+        heads = [rng.choice([['a', 'b'], ['b', 'c'], ['a', 'c'], ['a', 'b', 'c'], ['b', 'a']]) for _ in range(k)]
+        nan_rate = rng.choice([0.0, 0.2, 0.4])
+        ops = [rand_frame(rng, days0 if j == 0 else rand_days(rng, rng.choice(['overlap', 'nested', 'disjoint']), days0), nan_rate, heads[j]) for j in range(k)]
+        if rng.random() < 0.4:
+            ops.insert(rng.randrange(k + 1), rand_series(rng, rand_days(rng, 'overlap', days0), nan_rate))
+        how, ch, m = rng.choice(['ij', 'oj', 'lj', 'rj']), rng.choice(['ij', 'oj', 'default']), rng.choice(METHODS)
+        case = dict(tag='law-presync-columns/%s' % ch, lines=['(align sync %s %s %s %s)' % (enc_tree(ops), how, m, 'ij' if ch == 'default' else ch)])
+        calls = []
+
+        def rec(*args):
+            calls.append(args)
+            return [a for a in args if isinstance(a, pd.Series)][0]
+        try:
+            kw = {} if ch == 'default' else dict(columns=ch)
+            res = pyg_base.presync(rec)(*ops, join=how, method=dec_method(m), **kw)
+        except Exception as e:
+            yield Finding('violation', case, 'the presync-decorated call raised %s: %s' % (type(e).__name__, str(e)[:120]))
+            continue
+        count += 1
+        want = expected_index(ops, how)
+        hs = [set(x.columns) for x in ops if isinstance(x, pd.DataFrame)]
+        cols = set.union(*hs) if ch == 'oj' else set.intersection(*hs)
+        if len(calls) != len(cols):
+            yield Finding('violation', case, 'the function was called %d times, the common column set is %s' % (len(calls), sorted(cols)))
+            continue
+
+        def matches(args, c):
+            if len(args) != len(ops):
+                return False
+            for x, a in zip(ops, args):
+                if isinstance(x, pd.DataFrame) and c not in x.columns:
+                    if isinstance(a, (pd.Series, pd.DataFrame)) or not _isnan(float(a)):
+                        return False
+                    continue
+                src = x[c] if isinstance(x, pd.DataFrame) else x
+                if not isinstance(a, pd.Series) or list(a.index) != want or not same_vals(list(map(float, a.values)), expected_series(src, want, dec_method(m))):
+                    return False
+            return True
+        left, bad = set(cols), None
+        for args in calls:
+            hit = [c for c in sorted(left) if matches(args, c)]
+            if not hit:
+                bad = 'a call received arguments that are no column of the common column set %s on the common index %s: %s' % (
+                    sorted(cols), [t.day for t in want], [list(a.values) if isinstance(a, pd.Series) else a for a in args])
+                break
+            left.discard(hit[0])
+        if bad:
+            yield Finding('violation', case, bad)
+            continue
+        if cols and not (isinstance(res, pd.DataFrame) and set(res.columns) == cols and list(res.index) == want):
+            yield Finding('violation', case, 'the result is not a frame with the common columns %s on the common index' % sorted(cols))
     # bare arrays: aligned at the end - flat lists, nested lists / dicts beside scalars and strings (the joint length is taken over
     # EVERY array at any depth: theorem sync_arrays), with a fill method (aligned, then filled by position), and as the
     # arguments of a presync-decorated function
